@@ -474,10 +474,12 @@ package wallet
 //@   loop "range cau.SiacoinElementDiffs()"
 //@     invariant [frame] frameRows(createdUTXOs, spentUTXOs)
 //@     invariant [apart] !sameArray(createdUTXOs, spentUTXOs)
-//@     invariant [created] forall k int :: { createdUTXOs[k] } 0 <= k && k < len(createdUTXOs) ==> createdUTXOs[k].SiacoinOutput.Address == address
-//@         && (exists d int :: 0 <= d && d <= rangeindex && callres("SiacoinElementDiffs")[d].Created && !callres("SiacoinElementDiffs")[d].Spent && callres("SiacoinElementDiffs")[d].SiacoinElement.ID == createdUTXOs[k].ID && callres("SiacoinElementDiffs")[d].SiacoinElement.SiacoinOutput == createdUTXOs[k].SiacoinOutput)
-//@     invariant [spent] forall k int :: { spentUTXOs[k] } 0 <= k && k < len(spentUTXOs) ==> spentUTXOs[k].SiacoinOutput.Address == address
-//@         && (exists d int :: 0 <= d && d <= rangeindex && !callres("SiacoinElementDiffs")[d].Created && callres("SiacoinElementDiffs")[d].Spent && callres("SiacoinElementDiffs")[d].SiacoinElement.ID == spentUTXOs[k].ID && callres("SiacoinElementDiffs")[d].SiacoinElement.SiacoinOutput == spentUTXOs[k].SiacoinOutput)
+//@     invariant [created-addr] forall k int :: { createdUTXOs[k] } 0 <= k && k < len(createdUTXOs) ==> createdUTXOs[k].SiacoinOutput.Address == address
+//@     invariant [created] forall k int :: { createdUTXOs[k] } 0 <= k && k < len(createdUTXOs) ==>
+//@         (exists d int :: 0 <= d && d <= rangeindex && callres("SiacoinElementDiffs")[d].Created && !callres("SiacoinElementDiffs")[d].Spent && callres("SiacoinElementDiffs")[d].SiacoinElement.ID == createdUTXOs[k].ID && callres("SiacoinElementDiffs")[d].SiacoinElement.SiacoinOutput == createdUTXOs[k].SiacoinOutput)
+//@     invariant [spent-addr] forall k int :: { spentUTXOs[k] } 0 <= k && k < len(spentUTXOs) ==> spentUTXOs[k].SiacoinOutput.Address == address
+//@     invariant [spent] forall k int :: { spentUTXOs[k] } 0 <= k && k < len(spentUTXOs) ==>
+//@         (exists d int :: 0 <= d && d <= rangeindex && !callres("SiacoinElementDiffs")[d].Created && callres("SiacoinElementDiffs")[d].Spent && callres("SiacoinElementDiffs")[d].SiacoinElement.ID == spentUTXOs[k].ID && callres("SiacoinElementDiffs")[d].SiacoinElement.SiacoinOutput == spentUTXOs[k].SiacoinOutput)
 //@     invariant [all-created] forall d int :: { callres("SiacoinElementDiffs")[d] } 0 <= d && d <= rangeindex && callres("SiacoinElementDiffs")[d].Created && !callres("SiacoinElementDiffs")[d].Spent && callres("SiacoinElementDiffs")[d].SiacoinElement.SiacoinOutput.Address == address
 //@         ==> (exists k int :: 0 <= k && k < len(createdUTXOs) && createdUTXOs[k].ID == callres("SiacoinElementDiffs")[d].SiacoinElement.ID)
 //@     invariant [all-spent] forall d int :: { callres("SiacoinElementDiffs")[d] } 0 <= d && d <= rangeindex && !callres("SiacoinElementDiffs")[d].Created && callres("SiacoinElementDiffs")[d].Spent && callres("SiacoinElementDiffs")[d].SiacoinElement.SiacoinOutput.Address == address
@@ -487,10 +489,12 @@ package wallet
 //@   ensures [applied] result == nil ==> called("WalletApplyIndex") && callres("WalletApplyIndex") == nil && callarg("WalletApplyIndex", 1) == cau.State.Index && callarg("WalletApplyIndex", 5) == cau.Block.Timestamp
 //@   ensures [error] called("WalletApplyIndex") && callres("WalletApplyIndex") != nil ==> result != nil
 //@   ensures [events] called("WalletApplyIndex") ==> called("appliedEvents") && callarg("WalletApplyIndex", 4) == callres("appliedEvents") && callarg("appliedEvents", 1) == address
-//@   ensures [created-sound] called("WalletApplyIndex") ==> forall k int :: { callarg("WalletApplyIndex", 2)[k] } 0 <= k && k < len(callarg("WalletApplyIndex", 2)) ==> callarg("WalletApplyIndex", 2)[k].SiacoinOutput.Address == address
-//@         && (exists d int :: 0 <= d && d < len(callres("SiacoinElementDiffs")) && callres("SiacoinElementDiffs")[d].Created && !callres("SiacoinElementDiffs")[d].Spent && callres("SiacoinElementDiffs")[d].SiacoinElement.ID == callarg("WalletApplyIndex", 2)[k].ID && callres("SiacoinElementDiffs")[d].SiacoinElement.SiacoinOutput == callarg("WalletApplyIndex", 2)[k].SiacoinOutput)
-//@   ensures [spent-sound] called("WalletApplyIndex") ==> forall k int :: { callarg("WalletApplyIndex", 3)[k] } 0 <= k && k < len(callarg("WalletApplyIndex", 3)) ==> callarg("WalletApplyIndex", 3)[k].SiacoinOutput.Address == address
-//@         && (exists d int :: 0 <= d && d < len(callres("SiacoinElementDiffs")) && !callres("SiacoinElementDiffs")[d].Created && callres("SiacoinElementDiffs")[d].Spent && callres("SiacoinElementDiffs")[d].SiacoinElement.ID == callarg("WalletApplyIndex", 3)[k].ID && callres("SiacoinElementDiffs")[d].SiacoinElement.SiacoinOutput == callarg("WalletApplyIndex", 3)[k].SiacoinOutput)
+//@   ensures [created-addr] called("WalletApplyIndex") ==> forall k int :: { callarg("WalletApplyIndex", 2)[k] } 0 <= k && k < len(callarg("WalletApplyIndex", 2)) ==> callarg("WalletApplyIndex", 2)[k].SiacoinOutput.Address == address
+//@   ensures [created-sound] called("WalletApplyIndex") ==> forall k int :: { callarg("WalletApplyIndex", 2)[k] } 0 <= k && k < len(callarg("WalletApplyIndex", 2)) ==>
+//@         (exists d int :: 0 <= d && d < len(callres("SiacoinElementDiffs")) && callres("SiacoinElementDiffs")[d].Created && !callres("SiacoinElementDiffs")[d].Spent && callres("SiacoinElementDiffs")[d].SiacoinElement.ID == callarg("WalletApplyIndex", 2)[k].ID && callres("SiacoinElementDiffs")[d].SiacoinElement.SiacoinOutput == callarg("WalletApplyIndex", 2)[k].SiacoinOutput)
+//@   ensures [spent-addr] called("WalletApplyIndex") ==> forall k int :: { callarg("WalletApplyIndex", 3)[k] } 0 <= k && k < len(callarg("WalletApplyIndex", 3)) ==> callarg("WalletApplyIndex", 3)[k].SiacoinOutput.Address == address
+//@   ensures [spent-sound] called("WalletApplyIndex") ==> forall k int :: { callarg("WalletApplyIndex", 3)[k] } 0 <= k && k < len(callarg("WalletApplyIndex", 3)) ==>
+//@         (exists d int :: 0 <= d && d < len(callres("SiacoinElementDiffs")) && !callres("SiacoinElementDiffs")[d].Created && callres("SiacoinElementDiffs")[d].Spent && callres("SiacoinElementDiffs")[d].SiacoinElement.ID == callarg("WalletApplyIndex", 3)[k].ID && callres("SiacoinElementDiffs")[d].SiacoinElement.SiacoinOutput == callarg("WalletApplyIndex", 3)[k].SiacoinOutput)
 //@   ensures [created-complete] called("WalletApplyIndex") ==> forall d int :: { callres("SiacoinElementDiffs")[d] } 0 <= d && d < len(callres("SiacoinElementDiffs")) && callres("SiacoinElementDiffs")[d].Created && !callres("SiacoinElementDiffs")[d].Spent && callres("SiacoinElementDiffs")[d].SiacoinElement.SiacoinOutput.Address == address
 //@         ==> (exists k int :: 0 <= k && k < len(callarg("WalletApplyIndex", 2)) && callarg("WalletApplyIndex", 2)[k].ID == callres("SiacoinElementDiffs")[d].SiacoinElement.ID)
 //@   ensures [spent-complete] called("WalletApplyIndex") ==> forall d int :: { callres("SiacoinElementDiffs")[d] } 0 <= d && d < len(callres("SiacoinElementDiffs")) && !callres("SiacoinElementDiffs")[d].Created && callres("SiacoinElementDiffs")[d].Spent && callres("SiacoinElementDiffs")[d].SiacoinElement.SiacoinOutput.Address == address
@@ -507,10 +511,12 @@ package wallet
 //@   loop "range cru.SiacoinElementDiffs()"
 //@     invariant [frame] frameRows(removedUTXOs, unspentUTXOs)
 //@     invariant [apart] !sameArray(removedUTXOs, unspentUTXOs)
-//@     invariant [created] forall k int :: { removedUTXOs[k] } 0 <= k && k < len(removedUTXOs) ==> removedUTXOs[k].SiacoinOutput.Address == address
-//@         && (exists d int :: 0 <= d && d <= rangeindex && callres("SiacoinElementDiffs")[d].Created && !callres("SiacoinElementDiffs")[d].Spent && callres("SiacoinElementDiffs")[d].SiacoinElement.ID == removedUTXOs[k].ID && callres("SiacoinElementDiffs")[d].SiacoinElement.SiacoinOutput == removedUTXOs[k].SiacoinOutput)
-//@     invariant [spent] forall k int :: { unspentUTXOs[k] } 0 <= k && k < len(unspentUTXOs) ==> unspentUTXOs[k].SiacoinOutput.Address == address
-//@         && (exists d int :: 0 <= d && d <= rangeindex && !callres("SiacoinElementDiffs")[d].Created && callres("SiacoinElementDiffs")[d].Spent && callres("SiacoinElementDiffs")[d].SiacoinElement.ID == unspentUTXOs[k].ID && callres("SiacoinElementDiffs")[d].SiacoinElement.SiacoinOutput == unspentUTXOs[k].SiacoinOutput)
+//@     invariant [created-addr] forall k int :: { removedUTXOs[k] } 0 <= k && k < len(removedUTXOs) ==> removedUTXOs[k].SiacoinOutput.Address == address
+//@     invariant [created] forall k int :: { removedUTXOs[k] } 0 <= k && k < len(removedUTXOs) ==>
+//@         (exists d int :: 0 <= d && d <= rangeindex && callres("SiacoinElementDiffs")[d].Created && !callres("SiacoinElementDiffs")[d].Spent && callres("SiacoinElementDiffs")[d].SiacoinElement.ID == removedUTXOs[k].ID && callres("SiacoinElementDiffs")[d].SiacoinElement.SiacoinOutput == removedUTXOs[k].SiacoinOutput)
+//@     invariant [spent-addr] forall k int :: { unspentUTXOs[k] } 0 <= k && k < len(unspentUTXOs) ==> unspentUTXOs[k].SiacoinOutput.Address == address
+//@     invariant [spent] forall k int :: { unspentUTXOs[k] } 0 <= k && k < len(unspentUTXOs) ==>
+//@         (exists d int :: 0 <= d && d <= rangeindex && !callres("SiacoinElementDiffs")[d].Created && callres("SiacoinElementDiffs")[d].Spent && callres("SiacoinElementDiffs")[d].SiacoinElement.ID == unspentUTXOs[k].ID && callres("SiacoinElementDiffs")[d].SiacoinElement.SiacoinOutput == unspentUTXOs[k].SiacoinOutput)
 //@     invariant [all-created] forall d int :: { callres("SiacoinElementDiffs")[d] } 0 <= d && d <= rangeindex && callres("SiacoinElementDiffs")[d].Created && !callres("SiacoinElementDiffs")[d].Spent && callres("SiacoinElementDiffs")[d].SiacoinElement.SiacoinOutput.Address == address
 //@         ==> (exists k int :: 0 <= k && k < len(removedUTXOs) && removedUTXOs[k].ID == callres("SiacoinElementDiffs")[d].SiacoinElement.ID)
 //@     invariant [all-spent] forall d int :: { callres("SiacoinElementDiffs")[d] } 0 <= d && d <= rangeindex && !callres("SiacoinElementDiffs")[d].Created && callres("SiacoinElementDiffs")[d].Spent && callres("SiacoinElementDiffs")[d].SiacoinElement.SiacoinOutput.Address == address
@@ -520,10 +526,12 @@ package wallet
 //@   ensures [reverted] callarg("WalletRevertIndex", 1) == revertedIndex && callarg("WalletRevertIndex", 4) == cru.Block.Timestamp
 //@   ensures [ok] result == nil ==> called("UpdateWalletSiacoinElementProofs") && callres("UpdateWalletSiacoinElementProofs") == nil
 //@   ensures [error] called("UpdateWalletSiacoinElementProofs") && callres("UpdateWalletSiacoinElementProofs") != nil ==> result != nil
-//@   ensures [removed-sound] forall k int :: { callarg("WalletRevertIndex", 2)[k] } 0 <= k && k < len(callarg("WalletRevertIndex", 2)) ==> callarg("WalletRevertIndex", 2)[k].SiacoinOutput.Address == address
-//@         && (exists d int :: 0 <= d && d < len(callres("SiacoinElementDiffs")) && callres("SiacoinElementDiffs")[d].Created && !callres("SiacoinElementDiffs")[d].Spent && callres("SiacoinElementDiffs")[d].SiacoinElement.ID == callarg("WalletRevertIndex", 2)[k].ID && callres("SiacoinElementDiffs")[d].SiacoinElement.SiacoinOutput == callarg("WalletRevertIndex", 2)[k].SiacoinOutput)
-//@   ensures [unspent-sound] forall k int :: { callarg("WalletRevertIndex", 3)[k] } 0 <= k && k < len(callarg("WalletRevertIndex", 3)) ==> callarg("WalletRevertIndex", 3)[k].SiacoinOutput.Address == address
-//@         && (exists d int :: 0 <= d && d < len(callres("SiacoinElementDiffs")) && !callres("SiacoinElementDiffs")[d].Created && callres("SiacoinElementDiffs")[d].Spent && callres("SiacoinElementDiffs")[d].SiacoinElement.ID == callarg("WalletRevertIndex", 3)[k].ID && callres("SiacoinElementDiffs")[d].SiacoinElement.SiacoinOutput == callarg("WalletRevertIndex", 3)[k].SiacoinOutput)
+//@   ensures [removed-addr] forall k int :: { callarg("WalletRevertIndex", 2)[k] } 0 <= k && k < len(callarg("WalletRevertIndex", 2)) ==> callarg("WalletRevertIndex", 2)[k].SiacoinOutput.Address == address
+//@   ensures [removed-sound] forall k int :: { callarg("WalletRevertIndex", 2)[k] } 0 <= k && k < len(callarg("WalletRevertIndex", 2)) ==>
+//@         (exists d int :: 0 <= d && d < len(callres("SiacoinElementDiffs")) && callres("SiacoinElementDiffs")[d].Created && !callres("SiacoinElementDiffs")[d].Spent && callres("SiacoinElementDiffs")[d].SiacoinElement.ID == callarg("WalletRevertIndex", 2)[k].ID && callres("SiacoinElementDiffs")[d].SiacoinElement.SiacoinOutput == callarg("WalletRevertIndex", 2)[k].SiacoinOutput)
+//@   ensures [unspent-addr] forall k int :: { callarg("WalletRevertIndex", 3)[k] } 0 <= k && k < len(callarg("WalletRevertIndex", 3)) ==> callarg("WalletRevertIndex", 3)[k].SiacoinOutput.Address == address
+//@   ensures [unspent-sound] forall k int :: { callarg("WalletRevertIndex", 3)[k] } 0 <= k && k < len(callarg("WalletRevertIndex", 3)) ==>
+//@         (exists d int :: 0 <= d && d < len(callres("SiacoinElementDiffs")) && !callres("SiacoinElementDiffs")[d].Created && callres("SiacoinElementDiffs")[d].Spent && callres("SiacoinElementDiffs")[d].SiacoinElement.ID == callarg("WalletRevertIndex", 3)[k].ID && callres("SiacoinElementDiffs")[d].SiacoinElement.SiacoinOutput == callarg("WalletRevertIndex", 3)[k].SiacoinOutput)
 //@   ensures [removed-complete] forall d int :: { callres("SiacoinElementDiffs")[d] } 0 <= d && d < len(callres("SiacoinElementDiffs")) && callres("SiacoinElementDiffs")[d].Created && !callres("SiacoinElementDiffs")[d].Spent && callres("SiacoinElementDiffs")[d].SiacoinElement.SiacoinOutput.Address == address
 //@         ==> (exists k int :: 0 <= k && k < len(callarg("WalletRevertIndex", 2)) && callarg("WalletRevertIndex", 2)[k].ID == callres("SiacoinElementDiffs")[d].SiacoinElement.ID)
 //@   ensures [unspent-complete] forall d int :: { callres("SiacoinElementDiffs")[d] } 0 <= d && d < len(callres("SiacoinElementDiffs")) && !callres("SiacoinElementDiffs")[d].Created && callres("SiacoinElementDiffs")[d].Spent && callres("SiacoinElementDiffs")[d].SiacoinElement.SiacoinOutput.Address == address
